@@ -102,7 +102,7 @@ def run_suite(name, tier, seed):
     if hit is not None:
         hit["cache_hit"] = True
         return hit
-    workdir = os.path.join(C.OUT, "work", key)
+    workdir = os.path.join(C.OUT, "work", "%s_%d" % (key, os.getpid()))
     C.sh(["rm", "-rf", workdir])
     os.makedirs(workdir, exist_ok=True)
     res = {"suite": name, "kind": kind, "params": params, "cache_hit": False}
